@@ -786,3 +786,105 @@ Proof.
   unfold names_distinct_b in H. apply andb_true_iff in H as [H H4]. apply andb_true_iff in H as [H H3]. apply andb_true_iff in H as [H1 H2].
   repeat split; now apply nodup_b_ok.
 Qed.
+
+(* ====================================================================================== *)
+(* (7) the per-file import set (visitors.rs:156), before the collector                      *)
+(* ====================================================================================== *)
+Lemma flat_map_ext_in' {A B} (f g : A -> list B) l : (forall x, In x l -> f x = g x) -> flat_map f l = flat_map g l.
+Proof.
+  induction l as [|x l IH]; intros H; [reflexivity|]. cbn [flat_map]. rewrite (H x (or_introl eq_refl)), IH; [reflexivity|].
+  intros y Hy. apply H. now right.
+Qed.
+
+Lemma imported_eq (x y : imported) : base_crate x = base_crate y -> type_name x = type_name y -> x = y.
+Proof. destruct x, y. cbn. now intros -> ->. Qed.
+
+(* outside class 3 reconcile_referenced_types keeps the same imports, in the same order, whatever the iteration order *)
+Theorem rrt_order_irrelevant uc (ho1 ho2 : list imported -> list imported) pd :
+  oracle_ok ho1 -> oracle_ok ho2 ->
+  file_import_ambiguous (all_references uc pd) (p_type_names pd) (p_imports pd) = false ->
+  reconcile_referenced_types uc ho1 pd = reconcile_referenced_types uc ho2 pd.
+Proof.
+  intros H1 H2 HA. unfold reconcile_referenced_types. f_equal. f_equal. f_equal.
+  apply flat_map_ext_in'. intros name Hn. f_equal.
+  apply filter_In in Hn as [Hn Hl]. apply unique_strs_in in Hn as [Hn _]. apply negb_true_iff in Hl.
+  apply find_unique_set.
+  - intros x. now rewrite (H1 _ x), (H2 _ x).
+  - intros x y Hx Hy Ex Ey. apply (proj1 (H1 _ _)) in Hx, Hy. apply str_eqb_eq in Ex, Ey.
+    pose proof (existsb_false _ _ x HA Hx) as F. cbn beta in F. rewrite Ex, Hl in F.
+    apply mem_str_in in Hn. rewrite Hn in F. cbn [negb andb] in F.
+    pose proof (existsb_false _ _ y F Hy) as G. cbn beta in G. rewrite Ey, str_eqb_refl in G. cbn [andb] in G.
+    apply negb_false_iff, str_eqb_eq in G. symmetry. apply imported_eq; [exact G|congruence].
+Qed.
+
+Section Pre.
+Variable uc : unicode.
+Variable T ign : list str.
+
+(* parse_file_multi up to (not including) reconcile_referenced_types: the items of the file and ALL its import
+   candidates (what its `use` trees and qualified paths yield) *)
+Definition parse_file_pre (tstr : str -> option Syntax.ty) (own : str) (f : Syntax.file) : outcome (option parsed) :=
+  if negb (Syntax.fl_marker f) then Ok None else
+  do pd <- (if accepts T (Syntax.fl_attrs f) then
+              do pd1 <- visit_items_multi uc tstr T own ign (Syntax.fl_items f) empty_parsed;
+              Ok (with_imports pd1 (imp_extend (p_imports pd1)
+                                      (flat_map (fun p => opt_list (path_candidate uc own ign p)) (Syntax.fl_paths f))))
+            else Ok empty_parsed);
+  Ok (if parsed_is_empty pd then None else Some pd).
+
+Lemma parse_file_multi_pre tstr own ho f :
+  parse_file_multi uc tstr T own ign ho f =
+  match parse_file_pre tstr own f with
+  | Ok o => Ok (option_map (reconcile_referenced_types uc ho) o) | Err e => Err e | Panic s => Panic s
+  end.
+Proof.
+  unfold parse_file_multi, parse_file_pre. destruct (negb (Syntax.fl_marker f)); [reflexivity|].
+  destruct (accepts T (Syntax.fl_attrs f)).
+  - destruct (visit_items_multi uc tstr T own ign (Syntax.fl_items f) empty_parsed) as [pd1| |]; cbn [bind]; try reflexivity.
+    match goal with |- context [parsed_is_empty ?p] => destruct (parsed_is_empty p) end; reflexivity.
+  - cbn [bind]. destruct (parsed_is_empty empty_parsed); reflexivity.
+Qed.
+
+(* class 3 over a workspace: no source file of a crate is ambiguous *)
+Definition file_unambiguous (e : ws_entry) : bool :=
+  match find_crate_name (we_path e) with
+  | None => true
+  | Some cn =>
+    match parse_file_pre (we_tstr e) cn (we_file e) with
+    | Ok (Some pd) => negb (file_import_ambiguous (all_references uc pd) (p_type_names pd) (p_imports pd))
+    | _ => true
+    end
+  end.
+
+Theorem parse_workspace_order_irrelevant (ho1 ho2 : list imported -> list imported) ws :
+  oracle_ok ho1 -> oracle_ok ho2 -> forallb file_unambiguous ws = true ->
+  parse_workspace uc T ign ho1 ws = parse_workspace uc T ign ho2 ws.
+Proof.
+  intros H1 H2. induction ws as [|e ws IH]; intros HA; [reflexivity|]. cbn [forallb] in HA. apply andb_true_iff in HA as [HE HA].
+  cbn [parse_workspace]. unfold file_unambiguous in HE. destruct (find_crate_name (we_path e)) as [cn|]; [|now apply IH].
+  rewrite !parse_file_multi_pre, (IH HA).
+  destruct (parse_file_pre (we_tstr e) cn (we_file e)) as [[pd|]| |]; try reflexivity.
+  apply negb_true_iff in HE. cbn [option_map]. now rewrite (rrt_order_irrelevant uc ho1 ho2 pd H1 H2 HE).
+Qed.
+End Pre.
+
+(* ====================================================================================== *)
+(* (8) from the source files to the generated files                                         *)
+(* ====================================================================================== *)
+Theorem multi_end_to_end (uc : unicode) (T ign : list str) (lang : lang) (ws : list ws_entry)
+        (hf1 hf2 ho1 ho2 : list imported -> list imported) (hc1 hc2 : crate_types -> crate_types) (a1 : list (str * parsed)) :
+  oracle_ok hf1 -> oracle_ok hf2 -> oracle_ok ho1 -> oracle_ok ho2 -> oracle_ok hc1 -> oracle_ok hc2 ->
+  forallb (file_unambiguous uc T ign) ws = true ->
+  parse_workspace uc T ign hf1 ws = Ok a1 ->
+  all_distinct (collect a1) -> ws_ambiguity (collect a1) = None ->
+  parse_workspace uc T ign hf2 ws = Ok a1 /\
+  forall a2, Permutation a1 a2 ->
+    forall (St : Type) (gen : St -> str -> scoped -> parsed -> outcome (str * St)), reads_items gen ->
+      forall st, generate_crates gen st (multi_plan lang hc1 (multi_crates ho1 a1)) =
+                 generate_crates gen st (multi_plan lang hc2 (multi_crates ho2 a2)).
+Proof.
+  intros Hf1 Hf2 Ho1 Ho2 Hc1 Hc2 HF HW HD HA. split.
+  - now rewrite <- (parse_workspace_order_irrelevant uc T ign hf1 hf2 ws Hf1 Hf2 HF).
+  - intros a2 HP St gen Hr st.
+    exact (proj2 (proj2 (multi_hash_order_irrelevant lang a1 a2 ho1 ho2 hc1 hc2 HP HD HA Ho1 Ho2 Hc1 Hc2)) St gen Hr st).
+Qed.
